@@ -358,6 +358,9 @@ func c09TopUpAs(c *core.Ctx, R string) {
 				if fn.ObjOf(ap.Args[0]) == held && gen != nil && fn.ObjOf(ap.Args[1]) == gen && fn.Graph().NodeBefore(call.Expr, as) {
 					appended = true
 				}
+				if fn.ObjOf(ap.Args[0]) == held && an.Unparen(ap.Args[1]) == ast.Expr(call.Expr) {
+					appended = true // generated tokens passed straight into the append
+				}
 				return true
 			})
 			c.Check(appended, R, key, call.Expr.Pos(), fmt.Sprintf("requests %s tokens and appends them to the held list %s (inherited tokens kept as they are)", fn.Canon(call.Expr.Args[0]), held.Name()), 1)
